@@ -10,6 +10,8 @@ Lemma kconst_distinct : kNew <> kAdded /\ kNew <> kDeleted /\ kAdded <> kDeleted
 Proof. repeat split; discriminate. Qed.
 Lemma grow_factor_ge2 : 2 <= grow_factor. Proof. vm_compute. lia. Qed.
 Lemma init_cap_pos : 0 < kInitEventListSize. Proof. vm_compute. lia. Qed.
+Lemma grow_factor_Z : Z.of_nat grow_factor = EPollPoller_grow_factor. Proof. reflexivity. Qed.
+Lemma init_cap_Z : Z.of_nat kInitEventListSize = EPollPoller_kInitEventListSize. Proof. reflexivity. Qed.
 
 Lemma upd_eq : forall A (m : nat -> option A) k v, upd m k v k = v.
 Proof. intros. unfold upd. now rewrite Nat.eqb_refl. Qed.
@@ -143,7 +145,8 @@ Record InvE (st : ep) (sp : spec) : Prop := {
   ie_kern : forall k, In k (e_kern st) <->
       exists s, sp (k_cid k) = Some s /\ s_reg s = true /\ s_ev s <> 0%N /\ k_fd k = s_fd s /\ k_ev k = s_ev s;
   ie_kerr : e_kerr st = 0;
-  ie_cap : 0 < e_cap st
+  ie_cap : 0 < e_cap st;
+  ie_capmin : kInitEventListSize <= e_cap st      (* events_ never shrinks below its initial size *)
 }.
 
 Lemma invE_init : InvE ep_init spec0.
@@ -311,6 +314,7 @@ Proof.
         -- apply G. exists (k_cid k), s0. auto.
   - apply (ie_kerr _ _ I).
   - apply (ie_cap _ _ I).
+  - apply (ie_capmin _ _ I).
 Qed.
 End EpollUpd.
 
@@ -384,6 +388,7 @@ Proof.
               rewrite B4, Efd. intros E. apply N. eapply reg_unique; eauto.
       * apply (ie_kerr _ _ I).
       * apply (ie_cap _ _ I).
+      * apply (ie_capmin _ _ I).
     + (* stays non-empty: EPOLL_CTL_MOD *)
       rewrite (isNone_false ch' NZ). eexists. split; [reflexivity|].
       subst ch' st0. cbn [fd events e_objs e_map e_kern e_cap e_kerr ep_set_objs set_index index added].
@@ -456,6 +461,7 @@ Proof.
       * rewrite upd_neq in B1 by auto. eauto 10.
   - apply (ie_kerr _ _ I).
   - apply (ie_cap _ _ I).
+  - apply (ie_capmin _ _ I).
 Qed.
 
 (* changing an unregistered object (construct / destroy) touches neither the map nor the kernel *)
@@ -483,6 +489,7 @@ Proof.
       * rewrite upd_neq in B1 by auto. eauto 10.
   - apply (ie_kerr _ _ I).
   - apply (ie_cap _ _ I).
+  - apply (ie_capmin _ _ I).
 Qed.
 
 Lemma ep_new_ok : forall st sp c f, InvE st sp -> sguard sp (New c f) ->
@@ -587,14 +594,16 @@ Proof.
     destruct (Nat.eqb_spec n (e_cap st)); [lia|]. now rewrite andb_false_r.
 Qed.
 
-Lemma invE_cap : forall st sp cap, InvE st sp -> 0 < cap ->
+Lemma invE_cap : forall st sp cap, InvE st sp -> e_cap st <= cap ->
   InvE (mkEp (e_objs st) (e_map st) (e_kern st) cap (e_kerr st)) sp.
-Proof. intros st sp cap I H. destruct I. constructor; auto. Qed.
+Proof. intros st sp cap I H. destruct I. constructor; auto; cbn [e_cap] in *; lia. Qed.
 
-Lemma ep_next_cap_pos : forall st n, 0 < e_cap st -> 0 < ep_next_cap st n.
+Lemma ep_next_cap_ge : forall st n, e_cap st <= ep_next_cap st n.
 Proof.
   intros. unfold ep_next_cap. pose proof grow_factor_ge2. destruct (Nat.leb (e_cap st) n); nia.
 Qed.
+Lemma ep_next_cap_pos : forall st n, 0 < e_cap st -> 0 < ep_next_cap st n.
+Proof. intros st n H. pose proof (ep_next_cap_ge st n). lia. Qed.
 
 (* a violated precondition of the Channel API is rejected, whatever else *)
 Lemma ep_rejected : forall st sp o, InvE st sp -> ~ sguard sp o -> ep_step st o = Rejected.
@@ -648,7 +657,7 @@ Proof.
   - destruct (ep_upd_ok _ _ _ _ I G CL) as [st' [E I']]. eauto.
   - destruct (ep_remove_ok _ _ _ I G) as [st' [E I']]. eauto.
   - destruct (ep_poll_ok _ _ ready choice I) as [act [rest [E _]]]. eexists _, _. split; [exact E|].
-    cbn [spec_step]. apply invE_cap; auto. apply ep_next_cap_pos, (ie_cap _ _ I).
+    cbn [spec_step]. apply invE_cap; auto. apply ep_next_cap_ge.
 Qed.
 
 Lemma reachE_inv : forall st sp, reachE st sp -> InvE st sp.
@@ -783,7 +792,7 @@ Proof.
   - cbn [map ep_run length] in *.
     destruct (ep_poll_ok _ _ ready ch I) as [act [rest [E _]]]. rewrite E. cbn [bind fst snd].
     set (st1 := mkEp (e_objs st) (e_map st) (e_kern st) (ep_next_cap st (length (ep_full st ready))) (e_kerr st)).
-    assert (I1 : InvE st1 sp). { apply invE_cap; auto. apply ep_next_cap_pos, (ie_cap _ _ I). }
+    assert (I1 : InvE st1 sp). { apply invE_cap; auto. apply ep_next_cap_ge. }
     assert (F1 : ep_full st1 ready = ep_full st ready) by (apply ep_full_kern; reflexivity).
     destruct (IH st1 sp ready I1) as [st' [outs [E' [I' [K' C']]]]].
     { rewrite F1. unfold st1. cbn [e_cap]. unfold ep_next_cap. pose proof grow_factor_ge2 as G2.
@@ -798,4 +807,104 @@ Proof.
       - assert (cp * 1 <= cp * p) by (apply Nat.mul_le_mono_l; lia). lia. }
     rewrite E'. cbn [bind fst snd]. eexists _, _. split; [reflexivity|].
     rewrite F1 in C'. split; [exact I'|]. split; [|exact C']. rewrite K'. reflexivity.
+Qed.
+
+(* every ready channel is reported by the poll that follows: the array is larger than their number *)
+Lemma ep_polls_report_all : forall choices choice st sp ready,
+  InvE st sp ->
+  length (ep_full st ready) < e_cap st * 2 ^ length choices ->
+  exists st' outs st'' act, ep_run st (map (Poll ready) choices) = Ok (st', outs) /\
+     ep_step st' (Poll ready choice) = Ok (st'', act) /\ Permutation (ep_full st ready) act.
+Proof.
+  intros choices choice st sp ready I H.
+  destruct (ep_polls_grow choices st sp ready I H) as [st' [outs [E [I' [K C]]]]].
+  destruct (ep_poll_ok st' sp ready choice I') as [act [rest [E2 [HP HL]]]].
+  rewrite (ep_full_kern st st' ready K) in HP, HL.
+  exists st', outs. eexists _, act. split; [exact E|]. split; [exact E2|].
+  assert (rest = []).
+  { apply Permutation_length in HP. rewrite app_length, HL in HP. destruct rest; [auto|cbn in HP; lia]. }
+  subst. now rewrite app_nil_r in HP.
+Qed.
+
+(* from ANY reachable state the array has at least its initial (generated) size *)
+Lemma reachE_polls_report_all : forall choices choice st sp ready,
+  reachE st sp ->
+  length (ep_full st ready) < kInitEventListSize * 2 ^ length choices ->
+  exists st' outs st'' act, ep_run st (map (Poll ready) choices) = Ok (st', outs) /\
+     ep_step st' (Poll ready choice) = Ok (st'', act) /\ Permutation (ep_full st ready) act.
+Proof.
+  intros choices choice st sp ready R H. pose proof (reachE_inv _ _ R) as I.
+  apply (ep_polls_report_all choices choice st sp ready I).
+  pose proof (ie_capmin _ _ I) as CM.
+  assert (kInitEventListSize * 2 ^ length choices <= e_cap st * 2 ^ length choices) by (apply Nat.mul_le_mono_r; exact CM).
+  lia.
+Qed.
+
+(* ---- the generated growth guard of EPollPoller::poll (Gen_C09, translated from the AST) ------------ *)
+Lemma ep_grow_link : forall n cap,
+  Z.of_nat (if Nat.ltb 0 n && Nat.eqb n cap then grow_factor * cap else cap) =
+  if EPollPoller_poll_grow_guard (Z.of_nat n) (Z.of_nat cap)
+  then EPollPoller_poll_new_size (Z.of_nat cap) else Z.of_nat cap.
+Proof.
+  intros n cap. unfold EPollPoller_poll_grow_guard, EPollPoller_poll_new_size.
+  pose proof grow_factor_Z as GZ. unfold EPollPoller_grow_factor in GZ.
+  destruct (Nat.ltb_spec 0 n), (Nat.eqb_spec n cap); cbn [andb];
+    repeat match goal with
+    | |- context [Z.gtb ?a ?b] => destruct (Z.gtb_spec a b)
+    | |- context [Z.geb ?a ?b] => destruct (Z.geb_spec a b)
+    | |- context [Z.ltb ?a ?b] => destruct (Z.ltb_spec a b)
+    | |- context [Z.leb ?a ?b] => destruct (Z.leb_spec a b)
+    | |- context [Z.eqb ?a ?b] => destruct (Z.eqb_spec a b)
+    end; cbn [andb orb negb]; try rewrite Nat2Z.inj_mul; nia.
+Qed.
+
+(* what EPollPoller::poll does to events_.size(): exactly the generated guard on numEvents = the number
+   of entries epoll_wait returned *)
+Lemma ep_poll_cap_generated : forall st ready choice st' act,
+  ep_step st (Poll ready choice) = Ok (st', act) ->
+  Z.of_nat (e_cap st') =
+  if EPollPoller_poll_grow_guard (Z.of_nat (length act)) (Z.of_nat (e_cap st))
+  then EPollPoller_poll_new_size (Z.of_nat (e_cap st)) else Z.of_nat (e_cap st).
+Proof.
+  intros st ready choice st' act E. cbn [ep_step] in E. unfold ep_poll in E.
+  set (full := ep_full st ready) in *. set (n := Nat.min (length full) (e_cap st)) in *.
+  destruct (forallb (ep_fill_ok st) (pick n choice full)); [|discriminate].
+  injection E as <- <-. cbn [e_cap].
+  destruct (pick_spec _ n choice full) as [rest [_ HL]]; [unfold n; lia|].
+  rewrite HL. apply ep_grow_link.
+Qed.
+
+(* ---- the generated dispatch of Channel::handleEventWithGuard and the tie_ guard -------------------- *)
+(* the function translated from the if-statements of Channel.cc IS the model's dispatch: a mask edited
+   in Channel.cc changes Gen_C09 and breaks this lemma *)
+Lemma dispatch_link : forall r, map cb_of_code (Channel_handleEventWithGuard_calls r) = dispatch r.
+Proof.
+  intros r. unfold Channel_handleEventWithGuard_calls, dispatch, Channel_has, has.
+  change (N.lor POLLERR POLLNVAL) with 40%N.
+  change (N.lor POLLIN (N.lor POLLPRI POLLRDHUP)) with 8195%N.
+  change POLLHUP with 16%N. change POLLIN with 1%N. change POLLOUT with 4%N.
+  repeat match goal with
+  | |- context [N.eqb (N.land r ?m) 0] => destruct (N.eqb (N.land r m) 0)
+  end; reflexivity.
+Qed.
+
+Lemma tie_link : forall tied alive, Channel_handleEvent_runs tied alive = handle_runs tied alive.
+Proof. intros [|] [|]; reflexivity. Qed.
+Lemma tie_guard_is_lock : Channel_handleEvent_guard_is_tie_lock = true.
+Proof. reflexivity. Qed.
+
+(* Channel::handleEvent in terms of the two generated functions *)
+Lemma handle_event_generated : forall tied alive r,
+  handle_event tied alive r =
+  if Channel_handleEvent_runs tied alive then map cb_of_code (Channel_handleEventWithGuard_calls r) else [].
+Proof. intros. unfold handle_event. now rewrite tie_link, dispatch_link. Qed.
+
+(* a tied channel whose owner is gone runs no callback at all; otherwise exactly dispatch *)
+Lemma handle_event_tie : forall tied alive r,
+  (tied = true -> alive = false -> handle_event tied alive r = []) /\
+  (tied = false \/ alive = true -> handle_event tied alive r = dispatch r).
+Proof.
+  intros tied alive r. unfold handle_event, handle_runs. split.
+  - intros -> ->. reflexivity.
+  - intros [->| ->]; [reflexivity|]. destruct tied; reflexivity.
 Qed.
